@@ -71,10 +71,13 @@ func acquireFromHolder(len int) (uintptr, *[]byte, error) {
 		return 0, nil, errSpaceOverflow
 	}
 
+	// the region reserved by this call is the one the atomic add just stepped over; the offset loaded above
+	// may have been handed to a concurrent caller in the meantime
+	start := newOffset - uintptr(len)
 	bytes := (*[]byte)(unsafe.Pointer(&reflect.SliceHeader{
-		Data: placeholder,
+		Data: start,
 		Len:  len,
 		Cap:  len,
 	}))
-	return placeholder, bytes, nil
+	return start, bytes, nil
 }
